@@ -280,7 +280,7 @@ func runC13(c *Ctx, r *Rec) {
 		}
 		switch {
 		case len(env.problems) > 0:
-			r.undecided("D2-guards", construct, c.pos(fd.Pos()), strings.Join(dedup(env.problems), "; "))
+			r.skip("D2-guards", construct, c.pos(fd.Pos()), strings.Join(dedup(env.problems), "; "))
 		case len(viol) > 0:
 			r.fail("D2-guards", construct, c.pos(fd.Pos()), strings.Join(dedup(viol), " | "))
 		default:
